@@ -704,15 +704,33 @@ impl Vm {
 
         let mut count = 0;
         let mut rest = expr;
+        let mut unquoted_tail = None;
         while rest.is_pair() {
+            // `(a . ,b)` reads as `(a unquote b)`: an unquote in tail position
+            if depth == 0 && count > 0 && rest.car().unwrap().is_unquote() {
+                if let Some(Cell::Pair(tail, nil)) = rest.cdr() {
+                    if nil.is_nil() {
+                        unquoted_tail = Some(tail.as_ref());
+                        break;
+                    }
+                }
+            }
             let car = rest.car().unwrap();
             self.compile_quasiquote(lambda, car, depth)?;
             lambda.emit(OpCode::PushAcc);
             rest = rest.cdr().unwrap();
             count += 1;
         }
-        lambda.emit(OpCode::PushImmediate);
-        lambda.emit(self.heap.maybe_put_cell(rest));
+        match unquoted_tail {
+            Some(tail) => {
+                self.compile_expression(lambda, false, tail)?;
+                lambda.emit(OpCode::PushAcc);
+            }
+            None => {
+                lambda.emit(OpCode::PushImmediate);
+                lambda.emit(self.heap.maybe_put_cell(rest));
+            }
+        }
 
         for i in 0..count {
             lambda.emit(OpCode::Cons);
